@@ -7,9 +7,14 @@ from ..common import BookCase, book_obs, sig, run_apps, app
 THEOREMS = ['depth_exact', 'outcome_order_independent', 'only_depth_error', 'chain_shorter', 'chain_le', 'chain_of_reach', 'cyclic_fails', 'shallow_succeeds']
 LEVEL = 'proof'
 RULE = ('chains of every length N-2..N+2, cycles of length 1..4 reached through shallow and deep paths, DAGs with sharing, '
-        'N in 1..12; both entry points repeated (runtime map order) and explicit visiting orders (all permutations for <= 4 recipes); '
+        'N in 1..12; through the CLI every command that resolves the book (register, balance in its display modes, the reports, summary, csv database-resolved) with the limit from --maxdepth / HR_MAXDEPTH; both entry points repeated (runtime map order) and explicit visiting orders (all permutations for <= 4 recipes); '
         'non-trivial = longest chain within 2 of N, or cyclic; distinct by (book, N)')
 ASSUMPTIONS = ["Go's map iteration order is sampled by repetition; explicit orders go through the resolver hook"]
+
+
+RESOLVING = [(['csv', 'database-resolved'], (), {}), (['csv', 'database-resolved'], (), {}), (['reg'], (), {}), (['reg'], (), {'singleElement': 'calories'}),
+             (['bal'], (), {}), (['bal'], (), {'collapse': True}), (['bal'], (), {'collapseLast': True}), (['bal'], (), {'singleElement': 'calories'}),
+             (['report', 'totals'], (), {}), (['report', 'unresolved'], (), {}), (['report', 'element-total'], ('calories',), {}), (['summary'], ('2021/01/24',), {})]
 
 
 def expect(book, n):
@@ -96,9 +101,13 @@ def run(ctx):
         book = g.chain_book(length, exact=True, cycle=g.r.choice([0, 0, 1, 2]) if length else 0)
         if len(spec.book_map(book)) != len(book):
             continue
-        files = {b'food.yaml': g.render_book(book), b'log.yaml': b''}
+        # every command that works with the resolved book refuses the same books, whatever else it is asked to do
+        path, args, sflags = g.r.choice(RESOLVING)
+        first = book[0][0] if book else b'calories'
+        files = {b'food.yaml': g.render_book(book), b'log.yaml': b'' if path == ['csv', 'database-resolved'] and g.r.random() < 0.5 else b'2021/01/24:\n  ' + first + b': 1\n'}
         src = g.r.choice(['flag', 'env'])
-        c = app(['csv', 'database-resolved'], files, g={'maxdepth': n} if src == 'flag' else {}, env={'maxdepth': n} if src == 'env' else {}, reps=4)
+        c = app(path, files, args=args, s=sflags, g={'maxdepth': n} if src == 'flag' else {}, env={'maxdepth': n} if src == 'env' else {}, reps=4,
+                kind=' '.join(path + list(sflags)))
         c.meta.update({'want': expect(book, n), 'N': n})
         apps.append(c)
     impl2, model2 = run_apps(ctx, apps)
@@ -106,9 +115,9 @@ def run(ctx):
         i = impl2[c.id]
         got = 'depth' if i.get('class') == 'depth' else i.get('status')
         if i.get('distinct', 1) != 1:
-            ctx.problem('oracle', '`csv database-resolved --maxdepth %d` succeeds on some runs and fails on others' % c.meta['N'], c, {}, signature='depth-order-dependent')
+            ctx.problem('oracle', '`%s --maxdepth %d` succeeds on some runs and fails on others' % (c.meta['kind'], c.meta['N']), c, {}, signature='depth-order-dependent')
         elif got != c.meta['want']:
-            ctx.problem('oracle', '`csv database-resolved` with depth limit %d: expected %s, got %s' % (c.meta['N'], c.meta['want'], got), c, {},
+            ctx.problem('oracle', '`%s` with depth limit %d: expected %s, got %s' % (c.meta['kind'], c.meta['N'], c.meta['want'], got), c, {},
                         signature='depth-order-dependent' if c.meta['want'] == 'depth' and got == 'ok' else 'depth-outcome')
 
 
